@@ -76,6 +76,7 @@ class Program:
             methods = [methods[i] for i in order]
         self.methods = methods
         self.ov = None
+        self.instance = None
         if build:
             self.build()
 
